@@ -192,7 +192,11 @@ def rand_meshspec(
         int_corners = rng.random() < 0.15
     dyadic = (not int_corners) and rng.random() < 0.12
     if int_corners:
-        cell = rng.integers(1, 5, nd).astype(float)
+        # corners given as Python integers; the cells need not be whole numbers
+        # (Mesh(p1=(0, 0, 0), p2=(10, 10, 10), n=(20, 20, 20))): dyadic fractions, so that
+        # n * cell is exactly the integer edge
+        cell = np.array([float(pick(rng, [q for q in (1, 1, 2, 3, 4, 0.5, 0.25, 1.5, 0.75)
+                                          if float(q * k).is_integer()])) for k in n])
         pmin = rng.integers(-20, 20, nd).astype(float) if offsets else np.zeros(nd)
     elif dyadic:
         # float corners on a dyadic lattice: all coordinate arithmetic is exact
